@@ -284,6 +284,20 @@ func (m *Machine) callVx(fn *ssa.Function, a []Value) Value {
 	case "vxTraceMark":
 		m.SyncTrace = append(m.SyncTrace, m.mustStr(a[0], "vxTraceMark"))
 		return nil
+	case "vxRaceLog":
+		if m.DecideV(a[0]) {
+			m.race = newRaceLog()
+		} else {
+			m.race = nil
+		}
+		return nil
+	case "vxRaceAnalyse":
+		reps, st, probs := m.AnalyseRaces("z3-new", m.CrossStatsOrNew())
+		m.RaceReports = append(m.RaceReports, reps...)
+		m.RaceStats = st
+		m.inconclusive = append(m.inconclusive, probs...)
+		m.race = nil
+		return int64(len(reps))
 	case "vxYield":
 		m.yield()
 		return nil
